@@ -26,6 +26,7 @@ type Engine struct {
 	fset    *token.FileSet
 	globals map[string]*GlobalInfo
 	tags    string
+	overlay map[string][]byte
 	verbose bool
 }
 
@@ -59,7 +60,7 @@ func externKey(fn *ssa.Function) string {
 func loadEngine(repo string, tags string) (*Engine, error) { return loadEngineOverlay(repo, tags, nil) }
 
 func loadEngineOverlay(repo string, tags string, overlay map[string][]byte) (*Engine, error) {
-	e := &Engine{repo: repo, spkgs: map[string]*ssa.Package{}, funcs: map[string]*ssa.Function{}, globals: map[string]*GlobalInfo{}, tags: tags}
+	e := &Engine{repo: repo, spkgs: map[string]*ssa.Package{}, funcs: map[string]*ssa.Function{}, globals: map[string]*GlobalInfo{}, tags: tags, overlay: overlay}
 	cfg := &packages.Config{Mode: packages.LoadAllSyntax, Dir: repo, BuildFlags: []string{"-tags=" + tags}, Overlay: overlay,
 		Env: append(os.Environ(), "GOFLAGS=-mod=mod", "GOPROXY=off", "GOSUMDB=off", "GOTOOLCHAIN=local", "GOARCH=amd64", "GOOS=linux")}
 	pkgs, err := packages.Load(cfg, ".", "./context")
